@@ -22,7 +22,7 @@ EXPLANATION = (
 )
 ASSUMPTIONS = ["CPython ast parses /repo's source as the interpreter would",
                "frozen RTLIL cell signature table (port -> width parameter) in sa/rules/c07.py"]
-MIN_INSTANCES = {"R-07f": 3, "R-07a": 30, "R-07b": 8, "R-07c": 2, "R-07d": 2, "R-07e": 3}
+MIN_INSTANCES = {"R-07g": 5, "R-07f": 3, "R-07a": 30, "R-07b": 8, "R-07c": 2, "R-07d": 2, "R-07e": 3}
 
 # cell type -> [(port, width parameter)], from the Yosys manual's cell library chapter
 SIG_UNARY = [("A", "A_WIDTH"), ("Y", "Y_WIDTH")]
@@ -535,5 +535,13 @@ def r07f(model, ctx):
               "declares a port `input` that is driven inside, or `output` with undriven bits", f"{IR}:{lp.lineno}")
 
 
-RULES = [("R-07f", r07f), ("R-07a", r07a), ("R-07b", r07b), ("R-07c", r07c), ("R-07d", r07d), ("R-07e", r07e),
+
+def r07g(model, ctx):
+    """which ports a module gets and with which direction: net-flow routing (_compute_net_flows.use_net), I/O directions
+    (_compute_ionet_dirs, io_nets, IODirection.__or__) compared with their reference semantics (sa/refs/c07_flows.py)"""
+    from .reflib import run_ref_file
+    run_ref_file(model, ctx, "R-07g", "c07_flows")
+
+
+RULES = [("R-07g", r07g), ("R-07f", r07f), ("R-07a", r07a), ("R-07b", r07b), ("R-07c", r07c), ("R-07d", r07d), ("R-07e", r07e),
          ("R-04c", c04.r04c), ("R-04e", _only(c04.r04e, lambda c: c.startswith("rtlil.") or c.startswith("emit_cell_wires")))]
